@@ -4,8 +4,8 @@
    add / re-add / remove / pop / peek / empty / clear / iter starting from TaskQueue(). *)
 From Coq Require Import QArith ZArith List Bool Arith Permutation Sorting.
 Import ListNotations.
-Require Import SC3.model.TaskQ SC3.model.ClockSched.
-Require Import SC3.proofs.C09_order SC3.proofs.C09_refine SC3.proofs.C09_corollaries SC3.proofs.C09_sched.
+Require Import SC3.model.TaskQ SC3.model.ClockSched SC3.model.Shutdown.
+Require Import SC3.proofs.C09_order SC3.proofs.C09_refine SC3.proofs.C09_corollaries SC3.proofs.C09_sched SC3.proofs.C09_shutdown.
 Local Open Scope nat_scope.
 
 (* --- the representation invariant holds after every history ------------------------- *)
@@ -153,6 +153,37 @@ Theorem sched_wakeups_nondecreasing : forall ck tk s s1 p1 t1 ops s3 p2 t2,
   (p1 <= p2)%Q.
 Proof. exact S_nondecreasing. Qed.
 
+(* --- the exit actions: Process._shutdown draining main._atexitq --------------------------------------------
+   Model: SC3.model.Shutdown ([while not empty(): pop()[1]()]); [chunks] = what the 1st, 2nd, ... action that
+   runs does to the queue while it runs (register, move, unregister, look): ANY lists of such operations. *)
+(* the loop ends within the stated number of iterations and leaves the queue EMPTY *)
+Theorem shutdown_drains_queue : forall chunks q q' log fin, reachable q -> chunks_ok chunks ->
+  shutdown (shutdown_fuel chunks q) chunks q = (q', log, fin) ->
+  fin = true /\ tq_iter q' = [] /\ tq_empty q' = true.
+Proof. exact SD_drains. Qed.
+
+(* every queued action that no later action unregisters runs *)
+Theorem shutdown_runs_every_queued_action : forall fuel chunks q q' log t, reachable q -> chunks_ok chunks ->
+  In t (map snd (tq_iter q)) ->
+  (forall c, In c chunks -> ~ In (ORemove t) c) ->
+  shutdown fuel chunks q = (q', log, true) ->
+  In t (ran log).
+Proof. exact SD_runs. Qed.
+
+(* ... including an action that is registered, or moved to another priority, by an action that is running *)
+Theorem shutdown_runs_actions_added_while_draining : forall chunks q q' log p t, reachable q -> chunks_ok chunks ->
+  tq_iter q <> [] ->
+  In (OAdd p t) (hd [] chunks) ->
+  (forall c, In c chunks -> ~ In (ORemove t) c) ->
+  shutdown (shutdown_fuel chunks q) chunks q = (q', log, true) ->
+  In t (ran log).
+Proof. exact SD_runs_added. Qed.
+
+(* the action that runs is the earliest entry of the queue at that moment *)
+Theorem shutdown_runs_earliest_first : forall f chunks q x rest, reachable q -> tq_iter q = x :: rest ->
+  exists log', snd (fst (shutdown (S f) chunks q)) = RItem (fst x) (snd x) :: log'.
+Proof. exact SD_first. Qed.
+
 (* --- non-vacuity: the model computes and the hypotheses are met ---------------------------- *)
 Definition ex_hist : list op :=
   [OAdd (1 # 1) 3; OAdd (1 # 2) 4; OAdd (2 # 2) 5; OAdd (1 # 1) 3; ORemove 4;
@@ -234,6 +265,20 @@ Proof.
   vm_compute. repeat constructor; discriminate.
 Qed.
 
+(* exit actions: close_net (1) at 900, stop_clocks (2) at 800, user_cleanup (3) at 0; while it runs, user_cleanup
+   moves close_net to 1 and registers flush_files (4) at 700: they run as 3, 1, 4, 2 and the queue ends empty *)
+Definition ex_exitq : tq := fst (run [OAdd (900 # 1) 1; OAdd (800 # 1) 2; OAdd (0 # 1) 3]%Z tq_init).
+Definition ex_chunks : list (list op) := [[OAdd (1 # 1) 1; OAdd (700 # 1) 4]%Z].
+Example ex_shutdown :
+  chunks_ok ex_chunks /\ tq_iter ex_exitq <> []
+  /\ (forall c, In c ex_chunks -> ~ In (ORemove 4%Z) c)
+  /\ (let '(q', log, fin) := shutdown (shutdown_fuel ex_chunks ex_exitq) ex_chunks ex_exitq in
+      (ran log, fin, tq_empty q')) = ([3; 1; 4; 2]%Z, true, true).
+Proof.
+  split; [repeat constructor |]. split; [vm_compute; discriminate |]. split; [| vm_compute; reflexivity].
+  intros c [Hc | []] H. subst c. simpl in H. destruct H as [H | [H | []]]; discriminate.
+Qed.
+
 Print Assumptions tq_inv_reachable.
 Print Assumptions tq_refines_spec_any_arrangement.
 Print Assumptions pop_fifo_on_ties.
@@ -241,3 +286,5 @@ Print Assumptions readd_moves_to_new_time_as_latest.
 Print Assumptions peek_large_is_max_live.
 Print Assumptions sched_retime_keeps_order.
 Print Assumptions sched_wakeups_nondecreasing.
+Print Assumptions shutdown_runs_actions_added_while_draining.
+Print Assumptions shutdown_drains_queue.
